@@ -565,6 +565,9 @@ def ackRangeFields : (prevSmallest : Nat) → List AckRange → List Nat
 
 def hasECN (e0 e1 ce : Nat) : Bool := e0 > 0 || e1 > 0 || ce > 0
 
+/-- `x > 0` for an int64 field that holds the two's complement of `x` (`x ≥ 2^63` is negative) -/
+def posI64 (x : Nat) : Bool := 0 < x && x < 2 ^ 63
+
 /-- the varint-encoded fields of an ACK frame, in writing order (after the type byte) -/
 def ackFields (ranges : List AckRange) (delayNs e0 e1 ce : Nat) : List Nat :=
   match ranges.take maxNumAckRanges with
@@ -582,7 +585,7 @@ def Frame.varints : Frame → List Nat
   | .ping => []
   | .ack ranges d e0 e1 ce => ackFields ranges d e0 e1 ce
   | .resetStream sid ec fs rs =>
-    [if rs = 0 then ftResetStream else ftResetStreamAt, sid, ec, fs] ++ (if rs > 0 then [rs] else [])
+    [if rs = 0 then ftResetStream else ftResetStreamAt, sid, ec, fs] ++ (if posI64 rs then [rs] else [])
   | .stopSending sid ec => [sid, ec]
   | .crypto off data => [off, data.length]
   | .newToken tok => [tok.length]
@@ -630,7 +633,7 @@ def Frame.bytes : Frame → Bytes
     [Varint.u8 (if hasECN e0 e1 ce then ftAckECN else ftAck)] ++ encAll (ackFields ranges d e0 e1 ce)
   | .resetStream sid ec fs rs =>
     Varint.enc (if rs = 0 then ftResetStream else ftResetStreamAt) ++ Varint.enc sid ++ Varint.enc ec
-      ++ Varint.enc fs ++ (if rs > 0 then Varint.enc rs else [])
+      ++ Varint.enc fs ++ (if posI64 rs then Varint.enc rs else [])
   | .stopSending sid ec => [Varint.u8 ftStopSending] ++ Varint.enc sid ++ Varint.enc ec
   | .crypto off data => [Varint.u8 ftCrypto] ++ Varint.enc off ++ Varint.enc data.length ++ data
   | .newToken tok => [Varint.u8 ftNewToken] ++ Varint.enc tok.length ++ tok
@@ -673,7 +676,7 @@ def Frame.length : Frame → Nat
         + lenAll (ackRangeFields r0.1 ((ranges.take maxNumAckRanges).drop 1))
         + (if hasECN e0 e1 ce then Varint.len e0 + Varint.len e1 + Varint.len ce else 0)
   | .resetStream sid ec fs rs =>
-    1 + (if rs > 0 then Varint.len rs else 0) + Varint.len sid + Varint.len ec + Varint.len fs
+    1 + (if posI64 rs then Varint.len rs else 0) + Varint.len sid + Varint.len ec + Varint.len fs
   | .stopSending sid ec => 1 + (Varint.len sid + Varint.len ec)
   | .crypto off data => 1 + Varint.len off + Varint.len data.length + data.length
   | .newToken tok => 1 + (Varint.len tok.length + tok.length)
